@@ -38,6 +38,7 @@ type Conn struct {
 	Closes int
 
 	BytesIn, BytesOut int
+	wdeadline         time.Time
 }
 
 type simAddr string
@@ -101,6 +102,9 @@ func (c *Conn) Write(p []byte) (int, error) {
 		if c.outErr != nil {
 			return total, &net.OpError{Op: "write", Net: "sim", Err: c.outErr}
 		}
+		if !c.wdeadline.IsZero() && !time.Now().Before(c.wdeadline) {
+			return total, &net.OpError{Op: "write", Net: "sim", Err: timeoutErr{}}
+		}
 		space := c.window - c.inflight
 		if space <= 0 {
 			c.w.sim.Stats["probe.write_backpressure"]++
@@ -135,11 +139,31 @@ func (c *Conn) Close() error {
 	return nil
 }
 
-func (c *Conn) LocalAddr() net.Addr                { return simAddr("server") }
-func (c *Conn) RemoteAddr() net.Addr               { return simAddr("client") }
-func (c *Conn) SetDeadline(t time.Time) error      { return nil }
-func (c *Conn) SetReadDeadline(t time.Time) error  { return nil }
-func (c *Conn) SetWriteDeadline(t time.Time) error { return nil }
+func (c *Conn) LocalAddr() net.Addr               { return simAddr("server") }
+func (c *Conn) RemoteAddr() net.Addr              { return simAddr("client") }
+func (c *Conn) SetDeadline(t time.Time) error     { return c.SetWriteDeadline(t) }
+func (c *Conn) SetReadDeadline(t time.Time) error { return nil }
+
+// SetWriteDeadline: as for a TCP connection, the deadline applies to writes in progress as well
+// as to future ones. (Read deadlines are not used by the code under test.)
+func (c *Conn) SetWriteDeadline(t time.Time) error {
+	c.wdeadline = t
+	if t.IsZero() {
+		return nil
+	}
+	if d := time.Until(t); d <= 0 {
+		c.wakeWrite()
+	} else {
+		c.w.sim.After(d, "write-deadline", func() { c.wakeWrite() })
+	}
+	return nil
+}
+
+type timeoutErr struct{}
+
+func (timeoutErr) Error() string   { return "i/o timeout" }
+func (timeoutErr) Timeout() bool   { return true }
+func (timeoutErr) Temporary() bool { return true }
 
 var errReset = syscall.ECONNRESET
 var _ = errors.New
